@@ -105,7 +105,9 @@ def run(chk):
         if note:
             # (generated files are linked in path order: "wallet" sorts after the service/ and topic/ sub-packages, "foo" before)
             fn = "foo/v1/%s.j5s" % ("foo" if nent % 2 else "wallet")
-            raw.append({"files": {fn: note}, "focus": fn, "cls": "entity", "valid": True, "nolint": True})
+            # (every third declaration also goes through the single-file linter, LintFile / LintAll: the generated service
+            # and topic files import the main generated file)
+            raw.append({"files": {fn: note}, "focus": fn, "cls": "entity", "valid": True, "nolint": nent % 3 != 0})
             nent += 1
     chk.extra_cov["entity_declarations"] = nent
     res2 = chk.replay("lang-compile", raw, "raw", workers=W, timeout="30s")
